@@ -15,6 +15,10 @@ import (
 type Parser struct {
 	scanner Scanner
 	depth   int // current nesting depth of statements and expressions
+
+	// noVararg is true while parsing the body of a function whose parameter
+	// list does not end with '...' (the main chunk is a vararg function).
+	noVararg bool
 }
 
 // maxNestingDepth is the maximum nesting depth of statements and expressions
@@ -408,6 +412,9 @@ func (p *Parser) ShortExp(t *token.Token) (ast.ExpNode, *token.Token) {
 	case token.SgOpenBrace:
 		exp, t = p.TableConstructor(t)
 	case token.SgEtc:
+		if p.noVararg {
+			ruleError(t, "cannot use '...' outside a vararg function")
+		}
 		exp, t = ast.NewEtc(t), p.Scan()
 	case token.KwFunction:
 		exp, t = p.FunctionDef(p.Scan())
@@ -493,7 +500,10 @@ ParamsLoop:
 		}
 	}
 	expectType(t, token.SgCloseBkt, "')'")
+	outerNoVararg := p.noVararg
+	p.noVararg = !hasEtc
 	body, endTok := p.Block(p.Scan())
+	p.noVararg = outerNoVararg
 	expectType(endTok, token.KwEnd, "'end'")
 	def := ast.NewFunction(startTok, endTok, ast.NewParList(names, hasEtc), body)
 	return def, p.Scan()
@@ -680,6 +690,14 @@ func stringError(t *token.Token, err error) {
 	tok := *t
 	tok.Type = token.INVALID
 	panic(Error{Got: &tok, Expected: err.Error()})
+}
+
+// ruleError reports the violation of a rule of the language that is not
+// part of its context-free grammar as a syntax error located at the token t.
+func ruleError(t *token.Token, msg string) {
+	tok := *t
+	tok.Type = token.INVALID
+	panic(Error{Got: &tok, Expected: msg})
 }
 
 func tokenError(t *token.Token, expected string) {
